@@ -415,3 +415,36 @@ func checkPackageNameTest(c *core.Ctx, rule string, gen *ssa.Package) {
 	}
 	ob.Ok("%q", pat)
 }
+
+// checkValidatorPresenceOnly: the validator that runs after a message has passed the integrity check and has been parsed refuses
+// a message only for a missing required field. It calls accessors of the message and nothing that serializes or measures it
+// (CalcBodyLength ignores the trailer and unknown tags: a valid message that carries them would be refused).
+func checkValidatorPresenceOnly(c *core.Ctx, rule string) {
+	do := c.Func("fix/encoding", "DefaultValidator.Do")
+	if !c.Anchor("validator", do != nil, "encoding.DefaultValidator.Do", posOf(do)) {
+		return
+	}
+	bad := ""
+	n := 0
+	for f := range sameGoroutineReach(do) {
+		an.AllInstrs(f, func(in ssa.Instruction) {
+			cc := an.CallOf(in)
+			if cc == nil {
+				return
+			}
+			name := ""
+			if cc.IsInvoke() {
+				name = cc.Method.Name()
+			} else if cal := an.StaticCallee(cc); cal != nil {
+				name = an.NameOf(cal)
+			}
+			n++
+			switch name {
+			case "CalcBodyLength", "ToBytes", "BytesWithoutChecksum", "Prepare", "CalcCheckSum", "Items":
+				bad = an.NameOf(f) + " calls " + name
+			}
+		})
+	}
+	c.Check(bad == "" && n > 0, rule, "DefaultValidator.Do", "the validator tests the presence of required fields and computes nothing from the message", do.Pos(), "accessors and IsNull only",
+		bad+": the re-computed length or image of the parsed message leaves out what the template does not know (trailer fields, user-defined tags), so a valid message that carries them is refused after it has passed the integrity check")
+}
